@@ -38,7 +38,37 @@ CRASH_ASSUMPTIONS = [
     "images are recovered by the real FeoxStore opened read-write (TTL off, so expired generations stay visible to the oracle)",
 ]
 
+def _conc(mode, shards_q, shards_t, q_args, t_args):
+    def f(tier):
+        if tier == "quick":
+            return [{"engine": "conc", "shards": shards_q, "args": dict(mode=mode, **q_args)}]
+        return [{"engine": "conc", "shards": shards_t, "args": dict(mode=mode, **t_args)}]
+    return f
+
+
+def _both(*fs):
+    def f(tier):
+        out = []
+        for g in fs:
+            out.extend(g(tier))
+        return out
+    return f
+
+
+CONC_ASSUMPTIONS = [
+    "histories are recorded at the client boundary only (call before invoking, return after the reply) with one global logical clock; nothing is inferred from hook order inside the implementation",
+    "scheduling points (hook H3) only add bounded sleeps/yields between critical sections; they cannot create interleavings the program cannot have",
+    "coverage = the interleavings these runs produced; windows actually exercised are reported per scheduling point",
+]
+
+LIN = _conc("lin", 12, 16, {"histories": 700}, {"histories": 25000})
+REUSE = _conc("reuse", 8, 16, {"runs": 4}, {"runs": 120})
+MEMLIMIT = _conc("memlimit", 4, 8, {"runs": 12}, {"runs": 300})
+SCAN = _conc("scan", 4, 8, {"runs": 6}, {"runs": 150})
+
 PLAN = {
+    "C07": {"level": "exploration", "engines": LIN, "min_nontrivial": 500, "assumptions": CONC_ASSUMPTIONS},
+    "C08": {"level": "exploration", "engines": REUSE, "min_nontrivial": 50, "assumptions": CONC_ASSUMPTIONS + ["one writer per key, so each key's writes form a sequence with recorded intervals; readers never modify"]},
     "C02": {"level": "fault_enumeration", "engines": _crash("ack", 14, 240), "min_nontrivial": 200, "assumptions": CRASH_ASSUMPTIONS},
     "C03": {"level": "fault_enumeration", "engines": _crash("all", 14, 240), "min_nontrivial": 200, "assumptions": CRASH_ASSUMPTIONS},
     "C04": {"level": "fault_enumeration", "engines": _crash("idem", 4, 60, cuts_q=50, cuts_t=120), "min_nontrivial": 50, "assumptions": CRASH_ASSUMPTIONS},
@@ -47,9 +77,9 @@ PLAN = {
             "assumptions": MODEL_ASSUMPTIONS + ["independent codec M6 (harness/src/indep.rs) is the reader; it shares no code with feoxdb"]},
     "C11": {"level": "exploration", "engines": _model("ttl"), "min_nontrivial": 300, "assumptions": MODEL_ASSUMPTIONS},
     "C12": {"level": "exploration", "engines": _model("ts"), "min_nontrivial": 300, "assumptions": MODEL_ASSUMPTIONS},
-    "C13": {"level": "exploration", "engines": _model("mem"), "min_nontrivial": 300, "assumptions": MODEL_ASSUMPTIONS},
-    "C14": {"level": "exploration", "engines": _model("range"), "min_nontrivial": 300, "assumptions": MODEL_ASSUMPTIONS},
-    "C16": {"level": "exploration", "engines": _model("cache", configs="cachepair", quick_programs=60, thorough_programs=1500), "min_nontrivial": 200, "assumptions": MODEL_ASSUMPTIONS},
+    "C13": {"level": "exploration", "engines": _both(_model("mem"), MEMLIMIT), "min_nontrivial": 300, "assumptions": MODEL_ASSUMPTIONS + CONC_ASSUMPTIONS},
+    "C14": {"level": "exploration", "engines": _both(_model("range"), SCAN), "min_nontrivial": 300, "assumptions": MODEL_ASSUMPTIONS + CONC_ASSUMPTIONS},
+    "C16": {"level": "exploration", "engines": _both(_model("cache", configs="cachepair", quick_programs=60, thorough_programs=1500), _conc("reuse", 4, 8, {"runs": 3}, {"runs": 60})), "min_nontrivial": 200, "assumptions": MODEL_ASSUMPTIONS + CONC_ASSUMPTIONS},
     "C06": {
         "level": "exploration",
         "engines": _fsm,
